@@ -446,6 +446,8 @@ Proof.
   - destruct I as [[ND W] S]. split; [split|]; assumption.
   - destruct I as [W S]. split; [apply WF_balance_update; exact W | exact S].
   - exact I.
+  - destruct I as [W S]. split; [apply WF_balance_update; exact W | exact S].
+  - exact I.
 Qed.
 
 (* guarded run: every operation meets its precondition in the state it is applied to *)
@@ -491,6 +493,16 @@ Proof.
   apply existsb_exists. exists u. split; [exact Hu|]. rewrite !Z.eqb_refl. reflexivity.
 Qed.
 
+(* the same for the unspent list of every (network, account) and every confirmation threshold *)
+Theorem utxos_never_spent_any s g mc u :
+  Inv s -> In u (utxos s g mc) -> spent_by_sent (l_txs s) (u_txid u) (u_n u) = false.
+Proof.
+  intros I Hu.
+  apply (select_never_spent_proof s g mc [(u_txid u, u_n u)] (u_txid u) (u_n u) I); [|left; reflexivity].
+  cbn [step step_gen snd forallb fst]. f_equal. rewrite andb_true_r. unfold spendable.
+  apply existsb_exists. exists u. split; [exact Hu|]. rewrite !Z.eqb_refl. reflexivity.
+Qed.
+
 Theorem reload_equal_proof s :
   persisted (fst (step s Reopen)) = persisted s /\
   l_default (fst (step s Reopen)) = l_default s /\
@@ -512,5 +524,24 @@ Proof.
   destruct (balance_consistent (run (init d b) ops) g (proj1 I)) as [A B].
   split; [exact A|]. split; [exact B|].
   intros u Hu. apply utxos_never_spent_proof; [|exact Hu].
+  unfold s'. apply inv_step_proof; [exact I | reflexivity].
+Qed.
+
+(* The same for every (network, account) group of the wallet, not only the default one: after any guarded history
+   and a balance() call, for every group g the reported balance, the sum of utxos(g) and the sum of the balances
+   of the keys of g agree, and no output listed for g (at any confirmation threshold) is consumed by a sent
+   transaction the ledger holds. *)
+Theorem ledger_consistent_groups_proof d b ops :
+  ops_ok (init d b) ops = true ->
+  let s' := fst (step (run (init d b) ops) Balance) in
+  forall g,
+  reported s' g = usum s' g /\ ksum s' g = usum s' g /\
+  (forall mc u, In u (utxos s' g mc) -> spent_by_sent (l_txs s') (u_txid u) (u_n u) = false).
+Proof.
+  intros G s' g.
+  pose proof (inv_run_proof ops (init d b) (inv_init_proof d b) G) as I.
+  destruct (balance_consistent (run (init d b) ops) g (proj1 I)) as [A B].
+  split; [exact A|]. split; [exact B|].
+  intros mc u Hu. apply (utxos_never_spent_any s' g mc); [|exact Hu].
   unfold s'. apply inv_step_proof; [exact I | reflexivity].
 Qed.
